@@ -164,7 +164,15 @@ def rule_agree_b(ctx):
     ctx.ob("AGREE-B", "acceptance: guards on parser-normalised fields inspected", checked >= 1 or "package_type::PackageType" not in facts.adts, detail="%d guard atoms" % checked, nontrivial=False)
 
 
+def rule_canon(ctx):
+    """The re-parse runs build() (and the type's finish) again on the values the first build produced: the accessors of the
+    re-parsed PURL equal those of the built one only if every normaliser stage is idempotent (C10's IDEMP rules)."""
+    from . import C10
+    C10.rule_idemp(ctx)
+
+
 RULES = [
+    ("IDEMP", rule_canon, 5),
     ("EFFECT", rule_effect, 17),
     ("BUILD-SUCCESS", rule_build_success, 10),
     ("AGREE-B", rule_agree_b, 20),
